@@ -17,7 +17,8 @@ LEVEL = "proof"
 RULE = ("random terms prefactor * numerator(linear in orbital energies, "
         "rational coefficients) * remainder(1-3 tensors) / product of 1-3 "
         "orbital-energy brackets (2/4/6 energies, exponents 1-2, either "
-        "overall sign); operations: split+rebuild, canonicalize_sign "
+        "overall sign; every fourth term without denominator and with a "
+        "remainder symmetric in target indices); operations: split+rebuild, canonicalize_sign "
         "(both modes), permute_num, cancel_orb_energy_frac, factor_eri_parts,"
         " factor_denom, use_symbolic_denominators / use_explicit_denominators"
         " (both directions), diagonalize_fock, block_diagonalize_fock. "
@@ -48,14 +49,25 @@ def bracket(rng, occ, virt, n):
     return s * (Add(*[e_(x) for x in os_]) - Add(*[e_(x) for x in vs_]))
 
 
-def gen_fraction_term(rng, with_num=True):
+def gen_fraction_term(rng, with_num=True, with_den=True):
     occ, virt = G.pool("o", 6), G.pool("v", 6)
     ntg = rng.choice([(0, 0), (1, 1), (2, 2), (1, 0)])
+    if not with_den:
+        ntg = rng.choice([(2, 2), (2, 0), (0, 2), (2, 1)])
     tg = occ[:ntg[0]] + virt[:ntg[1]]
     po, pv = occ[:ntg[0] + 3], virt[:ntg[1] + 3]
     pools = {"o": po, "v": pv}
     names = ["V", "t1", "t2", "f", "X", "Y", "d", "A", "B"]
     rem = G.random_term(rng, rng.randint(1, 3), pools, names=names)
+    if not with_den:
+        # remainder (anti)symmetric under permutations of target indices:
+        # a tensor carrying the targets pairwise in one index group
+        up = list(virt[:2]) if ntg[1] == 2 else list(virt[4:6])
+        lo = list(occ[:2]) if ntg[0] == 2 else list(occ[4:6])
+        rem = AntiSymmetricTensor(rng.choice(["Y", "V"]), tuple(up),
+                                  tuple(lo)) * G.random_term(
+            rng, 1, {"o": occ[4:6] + occ[:ntg[0]],
+                     "v": virt[4:6] + virt[:ntg[1]]}, names=["A", "B", "f"])
     missing = [x for x in tg if x not in rem.atoms(Index)]
     if missing:
         rem = rem * NonSymmetricTensor("w", tuple(missing))
@@ -64,7 +76,7 @@ def gen_fraction_term(rng, with_num=True):
     io.sort(key=lambda s_: s_.name)
     iv.sort(key=lambda s_: s_.name)
     den = 1
-    for _ in range(rng.randint(1, 3)):
+    for _ in range(rng.randint(1, 3) if with_den else 0):
         n = rng.choice([1, 1, 2, 2, 3])
         n = min(n, len(io), len(iv))
         if n == 0:
@@ -104,7 +116,9 @@ def run(ctx):
 
     # ---- A: single-term fraction operations -----------------------------
     for k in range(n):
-        term, tg, has_den = gen_fraction_term(rng)
+        # every fourth term has no denominator (number), but an
+        # orbital-energy numerator and a target-symmetric remainder
+        term, tg, has_den = gen_fraction_term(rng, with_den=bool(k % 4))
         E = Expr(term, target_idx=tg)
         if len(E.terms) != 1 and not isinstance(E.sympy, Mul):
             continue
@@ -126,7 +140,8 @@ def run(ctx):
                               False)
                 continue
             add(op, E, res, tg)
-            ctx.case(key=(op, str(term)), nontrivial=has_den,
+            ctx.case(key=(op, str(term)),
+                     nontrivial=has_den or op == "permute_num",
                      sample={"op": op, "term": str(term)[:250],
                              "result": str(getattr(res, "sympy", res))[:250]},
                      kind=op)
